@@ -68,6 +68,45 @@ func resolveCond(v ssa.Value, blocks []*ssa.BasicBlock) (ssa.Value, bool) {
 // `from`, which may be nil) until an instruction satisfying isEnd is met.
 // limit bounds the number of paths (0 = 4096); exceeding it returns ok=false.
 func EnumPaths(start *ssa.BasicBlock, from *ssa.BasicBlock, isEnd func(ssa.Instruction) bool, limit int) (paths []CFGPath, ok bool) {
+	return EnumPathsSeed(start, from, nil, isEnd, limit)
+}
+
+// resolveVal resolves a (non-boolean) value through the phis whose blocks lie on the path prefix.
+func resolveVal(v ssa.Value, blocks []*ssa.BasicBlock) ssa.Value {
+	for depth := 0; depth < 16; depth++ {
+		x, ok := v.(*ssa.Phi)
+		if !ok {
+			return v
+		}
+		idx := -1
+		for i := len(blocks) - 1; i >= 0; i-- {
+			if blocks[i] == x.Block() {
+				idx = i
+				break
+			}
+		}
+		if idx <= 0 {
+			return v
+		}
+		pred := blocks[idx-1]
+		found := false
+		for i, p := range x.Block().Preds {
+			if p == pred {
+				v = x.Edges[i]
+				found = true
+				break
+			}
+		}
+		if !found {
+			return v
+		}
+		blocks = blocks[:idx]
+	}
+	return v
+}
+
+// EnumPathsSeed is EnumPaths with branch outcomes already known on entry (seed).
+func EnumPathsSeed(start *ssa.BasicBlock, from *ssa.BasicBlock, seed map[ssa.Value]bool, isEnd func(ssa.Instruction) bool, limit int) (paths []CFGPath, ok bool) {
 	if limit == 0 {
 		limit = 4096
 	}
@@ -114,6 +153,32 @@ func EnumPaths(start *ssa.BasicBlock, from *ssa.BasicBlock, isEnd func(ssa.Instr
 					if old, seen := truth[rv]; seen && old != w {
 						return // contradictory
 					}
+					// both operands constant once phis are resolved along the path: decided
+					if bo, isBin := rv.(*ssa.BinOp); isBin {
+						bx, by := resolveVal(bo.X, blocks), resolveVal(bo.Y, blocks)
+						if kx, okx := ConstInt(bx); okx {
+							if ky, oky := ConstInt(by); oky {
+								var res, dec bool
+								switch bo.Op {
+								case token.EQL:
+									res, dec = kx == ky, true
+								case token.NEQ:
+									res, dec = kx != ky, true
+								case token.LSS:
+									res, dec = kx < ky, true
+								case token.LEQ:
+									res, dec = kx <= ky, true
+								case token.GTR:
+									res, dec = kx > ky, true
+								case token.GEQ:
+									res, dec = kx >= ky, true
+								}
+								if dec && res != w {
+									return // infeasible
+								}
+							}
+						}
+					}
 					// a == b and a != b over the same operands are complementary
 					if bo, isBin := rv.(*ssa.BinOp); isBin && (bo.Op == token.EQL || bo.Op == token.NEQ) {
 						for k, kv := range truth {
@@ -121,7 +186,9 @@ func EnumPaths(start *ssa.BasicBlock, from *ssa.BasicBlock, isEnd func(ssa.Instr
 							if !ok || (ko.Op != token.EQL && ko.Op != token.NEQ) {
 								continue
 							}
-							sameOps := sameOperand(ko.X, bo.X) && sameOperand(ko.Y, bo.Y) || sameOperand(ko.X, bo.Y) && sameOperand(ko.Y, bo.X)
+							kx, ky := resolveVal(ko.X, blocks), resolveVal(ko.Y, blocks)
+							bx, by := resolveVal(bo.X, blocks), resolveVal(bo.Y, blocks)
+							sameOps := sameOperand(kx, bx) && sameOperand(ky, by) || sameOperand(kx, by) && sameOperand(ky, bx)
 							if !sameOps {
 								continue
 							}
@@ -151,7 +218,11 @@ func EnumPaths(start *ssa.BasicBlock, from *ssa.BasicBlock, isEnd func(ssa.Instr
 	if from != nil {
 		init = append(init, from)
 	}
-	walk(append(init, start), map[ssa.Value]bool{})
+	t0 := map[ssa.Value]bool{}
+	for k, v := range seed {
+		t0[k] = v
+	}
+	walk(append(init, start), t0)
 	return paths, ok
 }
 
@@ -356,6 +427,75 @@ func (cp CFGPath) FieldConsistent() bool {
 				ne[k] = map[string]bool{}
 			}
 			ne[k][cv] = true
+		}
+	}
+	return true
+}
+
+// NeverNilError: v is an error value that cannot be the nil interface: an interface made from a
+// concrete value, or the result of a module function all of whose returns are such values.
+func NeverNilError(v ssa.Value, depth int) bool {
+	if depth > 4 {
+		return false
+	}
+	switch x := v.(type) {
+	case *ssa.MakeInterface:
+		return true
+	case *ssa.ChangeInterface:
+		return NeverNilError(x.X, depth+1)
+	case *ssa.Phi:
+		for _, e := range x.Edges {
+			if !NeverNilError(e, depth+1) {
+				return false
+			}
+		}
+		return len(x.Edges) > 0
+	case *ssa.Call:
+		fn := x.Call.StaticCallee()
+		if fn == nil || len(fn.Blocks) == 0 || fn.Signature.Results().Len() != 1 {
+			return false
+		}
+		n := 0
+		ok := true
+		ForEachInstr(fn, func(in ssa.Instruction) {
+			ret, isRet := in.(*ssa.Return)
+			if !isRet || ret.Block() == fn.Recover {
+				return
+			}
+			n++
+			rv := ReturnValues(ret)
+			if len(rv) != 1 || !NeverNilError(rv[0], depth+1) {
+				ok = false
+			}
+		})
+		return ok && n > 0
+	}
+	return false
+}
+
+// NilFeasible reports whether the path's recorded outcomes are consistent with values that can
+// never be nil: a recorded "x == nil" where x resolves (along the path) to a never-nil error is infeasible.
+func (cp CFGPath) NilFeasible() bool {
+	for cond, truth := range cp.Truth {
+		bo, ok := cond.(*ssa.BinOp)
+		if !ok || (bo.Op != token.EQL && bo.Op != token.NEQ) {
+			continue
+		}
+		var other ssa.Value
+		switch {
+		case IsNilConst(bo.Y):
+			other = bo.X
+		case IsNilConst(bo.X):
+			other = bo.Y
+		default:
+			continue
+		}
+		isNil := (bo.Op == token.EQL) == truth
+		if !isNil {
+			continue
+		}
+		if NeverNilError(cp.ResolveAt(other, bo.Block()), 0) {
+			return false
 		}
 	}
 	return true
